@@ -194,7 +194,7 @@ theorem C03_serial_final {s s' : St} (h : Reachable s) {t : Tid} {l r : List OpI
 
 /-- writer 0 inside its second application on the left copy while reader 1 holds the right copy (`C03_no_touch`) -/
 example : ∃ s, Reachable s ∧ (s.pc 0).writing = some .L ∧ (s.pc 1).held = some .R :=
-  ⟨_, ⟨[(0, .call (.modify 7)), (0, .lock), (0, .ldRL .L), (0, .fBegin .R), (0, .fEnd .R [7]), (0, .stRL .R), (0, .ldCL .L),
+  ⟨_, ⟨false, [(0, .call (.modify 7)), (0, .lock), (0, .ldRL .L), (0, .fBegin .R), (0, .fEnd .R [7]), (0, .stRL .R), (0, .ldCL .L),
          (0, .ldCnt .R 0), (0, .stCL .R), (1, .call (.ls 0)), (1, .ldCL .R), (1, .inc .R 0), (1, .ldRL .R), (1, .ret (.ls 0)),
          (0, .ldCnt .L 0), (0, .fBegin .L)], rfl⟩, rfl, rfl⟩
 
@@ -202,7 +202,7 @@ example : ∃ s, Reachable s ∧ (s.pc 0).writing = some .L ∧ (s.pc 1).held = 
 (value = `committed` without the operation in progress); the reader reads `[]` while `committed = [7]` -/
 example : ∃ s s', Reachable s ∧ (s.pc 1).held = some .L ∧ s.val .L ++ [7] = s.committed ∧ s.mtx = some 0 ∧
     step s 1 (.rd .L []) = some s' :=
-  ⟨_, _, ⟨[(1, .call (.ls 0)), (1, .ldCL .L), (1, .inc .L 0), (1, .ldRL .L), (1, .ret (.ls 0)),
+  ⟨_, _, ⟨false, [(1, .call (.ls 0)), (1, .ldCL .L), (1, .inc .L 0), (1, .ldRL .L), (1, .ret (.ls 0)),
          (0, .call (.modify 7)), (0, .lock), (0, .ldRL .L), (0, .fBegin .R), (0, .fEnd .R [7]), (0, .stRL .R), (0, .ldCL .L),
          (0, .ldCnt .R 0), (0, .stCL .R), (0, .ldCnt .L 1), (0, .yld)], rfl⟩, rfl, rfl, rfl, rfl⟩
 
@@ -210,13 +210,13 @@ example : ∃ s s', Reachable s ∧ (s.pc 1).held = some .L ∧ s.val .L ++ [7] 
 example : ∃ s0 s1 s2, Reachable s0 ∧ step s0 0 (.ret (.modify 7)) = some s1 ∧ s1.pc 1 = .idle ∧
     run s1 [(1, .call (.ls 0)), (1, .ldCL .R), (1, .inc .R 0), (1, .ldRL .R)] = some s2 ∧ (s2.pc 1).held = some .R ∧
     s2.val .R = [7] :=
-  ⟨_, _, _, ⟨[(0, .call (.modify 7)), (0, .lock), (0, .ldRL .L), (0, .fBegin .R), (0, .fEnd .R [7]), (0, .stRL .R), (0, .ldCL .L),
+  ⟨_, _, _, ⟨false, [(0, .call (.modify 7)), (0, .lock), (0, .ldRL .L), (0, .fBegin .R), (0, .fEnd .R [7]), (0, .stRL .R), (0, .ldCL .L),
          (0, .ldCnt .R 0), (0, .stCL .R), (0, .ldCnt .L 0), (0, .fBegin .L), (0, .fEnd .L [7]), (0, .unlock)], rfl⟩,
     rfl, rfl, rfl, rfl, rfl⟩
 
 /-- `C03_monotone_read`: one thread reads `[]`, a modify completes, it takes a new handle and reads `[7]` -/
 example : ∃ s s', Reachable s ∧ s.lastSeen 1 = [] ∧ step s 1 (.rd .R [7]) = some s' ∧ s'.lastSeen 1 = [7] :=
-  ⟨_, _, ⟨[(1, .call (.ls 0)), (1, .ldCL .L), (1, .inc .L 0), (1, .ldRL .L), (1, .ret (.ls 0)), (1, .rd .L []),
+  ⟨_, _, ⟨false, [(1, .call (.ls 0)), (1, .ldCL .L), (1, .inc .L 0), (1, .ldRL .L), (1, .ret (.ls 0)), (1, .rd .L []),
          (1, .call .rel), (1, .dec .L 1), (1, .ret .rel),
          (0, .call (.modify 7)), (0, .lock), (0, .ldRL .L), (0, .fBegin .R), (0, .fEnd .R [7]), (0, .stRL .R), (0, .ldCL .L),
          (0, .ldCnt .R 0), (0, .stCL .R), (0, .ldCnt .L 0), (0, .fBegin .L), (0, .fEnd .L [7]), (0, .unlock), (0, .ret (.modify 7)),
@@ -225,7 +225,7 @@ example : ∃ s s', Reachable s ∧ s.lastSeen 1 = [] ∧ step s 1 (.rd .R [7]) 
 /-- `C03_serial_*`: two writers, the second one blocked until the first unlocks; afterwards both copies = `[7, 8]` -/
 example : ∃ s, Reachable s ∧ s.mtx = none ∧ s.valL = [7, 8] ∧ s.valR = [7, 8] ∧ s.committed = [7, 8] ∧
     step s 0 (.fin [7, 8] [7, 8]) = some s :=
-  ⟨_, ⟨[(0, .call (.modify 7)), (2, .call (.modify 8)), (0, .lock), (0, .ldRL .L), (0, .fBegin .R), (0, .fEnd .R [7]),
+  ⟨_, ⟨false, [(0, .call (.modify 7)), (2, .call (.modify 8)), (0, .lock), (0, .ldRL .L), (0, .fBegin .R), (0, .fEnd .R [7]),
          (0, .stRL .R), (0, .ldCL .L), (0, .ldCnt .R 0), (0, .stCL .R), (0, .ldCnt .L 0), (0, .fBegin .L), (0, .fEnd .L [7]),
          (0, .unlock), (2, .lock), (0, .ret (.modify 7)), (2, .ldRL .R), (2, .fBegin .L), (2, .fEnd .L [7, 8]), (2, .stRL .L),
          (2, .ldCL .R), (2, .ldCnt .L 0), (2, .stCL .L), (2, .ldCnt .R 0), (2, .fBegin .R), (2, .fEnd .R [7, 8]), (2, .unlock),
@@ -235,7 +235,7 @@ example : ∃ s, Reachable s ∧ s.mtx = none ∧ s.valL = [7, 8] ∧ s.valR = [
 readers are directed to, a read of the other copy, a torn / wrong value -/
 example : ∃ s, Reachable s ∧ step s 2 .lock = none ∧ step s 0 (.fBegin .L) = none ∧ step s 1 (.rd .R []) = none ∧
     step s 1 (.rd .L [9]) = none :=
-  ⟨_, ⟨[(0, .call (.modify 7)), (2, .call (.modify 8)), (0, .lock), (0, .ldRL .L),
+  ⟨_, ⟨false, [(0, .call (.modify 7)), (2, .call (.modify 8)), (0, .lock), (0, .ldRL .L),
          (1, .call (.ls 0)), (1, .ldCL .L), (1, .inc .L 0), (1, .ldRL .L), (1, .ret (.ls 0))], rfl⟩, rfl, rfl, rfl, rfl⟩
 
 end ConcVerif.LR
